@@ -1335,3 +1335,9 @@ impl TryFrom<String> for ForceMaxSideEffect {
         Ok(mass_side_effect)
     }
 }
+
+// Verification hook (inert unless built with `--cfg nrel_altrios_verif` or under `cargo kani`).
+#[cfg(any(kani, nrel_altrios_verif))]
+mod verif_hook {
+    include!(concat!(env!("NREL_ALTRIOS_VERIF_DIR"), "/hooks/consist__locomotive__locomotive_model.rs"));
+}
